@@ -373,7 +373,7 @@ func GenEdit(t *rapid.T, old *Repo, o RepoGenOpts) (*Repo, string) {
 			return r, fmt.Sprintf("change-cmd %s -> %s", tg.Label(), tg.Cmd)
 		case "toggle-exec":
 			tg := pickTarget(t, r, "genrule")
-			if tg == nil || tg.Cmd == "multi" || tg.Cmd == "dirk" || tg.Cmd == "dirn" {
+			if tg == nil || tg.Cmd == "multi" || tg.Cmd == "dirk" {
 				continue
 			}
 			tg.ExecOut = !tg.ExecOut
